@@ -99,6 +99,11 @@ def run(res, replay=None):
             viol('start values outside the bounds were accepted')
         if not r['bootstrap_observation_changed']:
             viol('create_bootstrap did not resample the observation')
+        for dv in r.get('derived', []):
+            sm = dv['summary']
+            if sm['loss'] != min(sm['loss_runs']) or abs(dv['loss_at_params'] - sm['loss']) > 1e-12 * max(1.0, abs(sm['loss'])) + 1e-15:
+                viol(f"an object made by {dv['kind']} from a parent that had run, then run itself, does not report its own best run",
+                     derived=dv)
         if any(abs(x - t) > 1e-3 * max(1.0, t) for x, t in zip(p, c['truth'])):
             viol('generating parameters not recovered on noise-free data', params=p, truth=c['truth'])
         # replay through the Gallina model: seeded start points and selection
